@@ -47,5 +47,6 @@ def run(ctx):
     R3.r08_14_verdict_is_a_set(ctx, 'R08.14')
     from . import helpers_rules as H_
     H_.r16_2_kind_first(ctx, 'R08.15')
+    E.r08_16_format_templates(ctx)
     from . import memo_rules as M
     M.memo_sound(ctx, 'R08.M')
